@@ -43,6 +43,8 @@ pub struct RtpsWriterProxy {
     acknack_count: Count,
     nack_frag_count: Count,
     frag_buffer: Vec<DataFragSubmessage>,
+    // Changes above the next expected one that the writer declared irrelevant (GAP)
+    irrelevant_changes: Vec<SequenceNumber>,
     reliability: ReliabilityKind,
 }
 
@@ -68,6 +70,7 @@ impl RtpsWriterProxy {
             acknack_count: 0,
             nack_frag_count: 0,
             frag_buffer: Vec::new(),
+            irrelevant_changes: Vec::new(),
             reliability,
         }
     }
@@ -178,9 +181,29 @@ impl RtpsWriterProxy {
         // FIND change FROM this.changes_from_writer SUCH-THAT
         // (change.sequenceNumber == a_seq_num);
         // change.status := RECEIVED; change.is_relevant := FALSE;
-        if a_seq_num > self.highest_received_change_sn {
-            self.highest_received_change_sn = a_seq_num;
+        // Only this change becomes RECEIVED: the changes before it that are still missing stay missing.
+        const MAX_IRRELEVANT_CHANGES: usize = 1024;
+        if a_seq_num > self.available_changes_max()
+            && !self.irrelevant_changes.contains(&a_seq_num)
+            && self.irrelevant_changes.len() < MAX_IRRELEVANT_CHANGES
+        {
+            self.irrelevant_changes.push(a_seq_num);
         }
+        self.skip_irrelevant_changes();
+    }
+
+    // Advance over the irrelevant changes that directly follow the last available change
+    fn skip_irrelevant_changes(&mut self) {
+        while let Some(i) = self
+            .irrelevant_changes
+            .iter()
+            .position(|&sn| sn == self.available_changes_max() + 1)
+        {
+            self.highest_received_change_sn = self.irrelevant_changes.swap_remove(i);
+        }
+        let available_changes_max = self.available_changes_max();
+        self.irrelevant_changes
+            .retain(|&sn| sn > available_changes_max);
     }
 
     pub fn lost_changes_update(&mut self, first_available_seq_num: SequenceNumber) {
@@ -190,6 +213,7 @@ impl RtpsWriterProxy {
         // change.status := LOST;
         // }
         self.first_available_seq_num = first_available_seq_num;
+        self.skip_irrelevant_changes();
     }
 
     pub fn missing_changes(&self) -> impl Iterator<Item = SequenceNumber> {
@@ -206,7 +230,7 @@ impl RtpsWriterProxy {
             self.first_available_seq_num,
             self.highest_received_change_sn + 1,
         );
-        first_missing_change..=highest_number
+        (first_missing_change..=highest_number).filter(|sn| !self.irrelevant_changes.contains(sn))
     }
 
     pub fn missing_changes_update(&mut self, last_available_seq_num: SequenceNumber) {
@@ -226,9 +250,13 @@ impl RtpsWriterProxy {
             self.highest_received_change_sn = a_seq_num;
         }
 
+        self.skip_irrelevant_changes();
+
         // Make sure all the fragments that are older than the received sample are deleted
         // since they are not useful anymore
-        self.frag_buffer.retain(|x| x.writer_sn() > a_seq_num);
+        let available_changes_max = self.available_changes_max();
+        self.frag_buffer
+            .retain(|x| x.writer_sn() > available_changes_max);
     }
 
     pub fn set_must_send_acknacks(&mut self, must_send_acknacks: bool) {
